@@ -62,6 +62,9 @@ func rawHeimdall(h hdrSpec) ([]byte, []byte) {
 	if h.BadBlock {
 		bid.Hash = fill(9)
 	}
+	if h.CommitHash != nil || h.CommitMode != "" || h.TimeShift != 0 {
+		panic("deposit-header dimensions are not built for heimdall (no deposit path)")
+	}
 	order := make([]int, len(h.Vals.keys))
 	for i := range order {
 		order[i] = i
